@@ -46,3 +46,21 @@ Example check_safe_premise :
   forallb (ev_safe g old_code false true) evs = true /\
   live_rows (s_c (run g old_code evs)) = [(1%Z, mkRow (VInt 7) VNull)].
 Proof. vm_compute. split; reflexivity. Qed.
+
+(* the statements about the code as it is (fixed_code), as exported to Properties/C12.v *)
+Lemma pk_unique_code g evs : NoDup (map fst (live_rows (s_c (run g fixed_code evs)))).
+Proof. apply pk_unique_all. Qed.
+Lemma type_and_length_code g evs k r :
+  In (k, r) (live_rows (s_c (run g fixed_code evs))) -> tl_ok g r.
+Proof. apply type_and_length_all. Qed.
+Lemma insert_preserves_code g evs ss c' :
+  forallb plain_insert ss = true -> run_auto g fixed_code (s_c (run g fixed_code evs)) ss = Ok c' ->
+  forall k r, In (k, r) (live_rows (s_c (run g fixed_code evs))) -> In (k, r) (live_rows c').
+Proof. apply insert_preserves. Qed.
+Lemma failed_event_code g st ev :
+  snd (step g fixed_code st ev) = false ->
+  s_c (fst (step g fixed_code st ev)) = s_c st /\
+  slookup (fst ev) (s_tx (fst (step g fixed_code st ev))) = None /\
+  forall sid', sid' <> fst ev ->
+    slookup sid' (s_tx (fst (step g fixed_code st ev))) = slookup sid' (s_tx st).
+Proof. apply failed_event. Qed.
